@@ -130,6 +130,49 @@ def run(ctx):
                 # the guard must read the variable itself (not the fresh result local)
                 if set(plug_locals) & cond_locals(h, sb):
                     guarded = True
+            # ... and the condition is the pending verdict's *kind*: no way leads from `pending is Deny` or `pending is Intercept` to the overwrite within this message.
+            # (A verdict that stands or falls with what the later Parse is judged - `an Intercept yields to a later Allow` - lets the intercepted statement through.)
+            hsw2 = switches(h)
+            pend_edges = set()
+            for variant in ("Deny", "Intercept"):
+                vE, _o, _ = discr_edges(h, r"plugins::PluginOutput", variant, origin_pred=lambda o: (o.kind in ("place", "param") and o.what in plug_locals) or o.kind == "discr", switches_cache=hsw2)
+                # only tests of the pending verdict itself
+                vE = {e for e in vE if set(plug_locals) & cond_locals(h, e[0])}
+                pend_edges |= {(variant, e) for e in vE}
+            rm2 = [c.block for c in h.calls("pgcat::messages::read_message")]
+            # the guard is `matches!(pending, Some(Deny(_)) | Some(Intercept(_)))` compiled into a bool: discriminant tests of the pending verdict assign a
+            # temporary true / false, a later switch on that temporary leads to the overwrite. For each of Deny and Intercept: the value the temporary gets on
+            # that variant's edge is not the value under which the overwrite is reached.
+            hdefs2 = h.defs()
+            reach_over = []
+            kinds_seen = set()
+            for sb, t in deps:
+                sw0 = next((sw for sw in hsw2 if sw.block == sb and sw.is_bool()), None)
+                if sw0 is None:
+                    continue
+                L = op_local(h.blocks[sb]["term"]["op"])
+                defsL = [(dd[1], const_int(dd[3]["rv"].get("op"))) for dd in hdefs2.get(L, []) if dd[0] == "assign" and dd[3]["rv"]["k"] == "use" and const_int(dd[3]["rv"].get("op")) in (0, 1)]
+                if not defsL:
+                    continue
+                te, fe = sw0.bool_edges()
+                v_over = 1 if (te[1] == d_[1] or h.dominates(te[1], d_[1])) else (0 if (fe[1] == d_[1] or h.dominates(fe[1], d_[1])) else None)
+                if v_over is None:
+                    continue
+                # the discriminant tests this temporary is computed from: those its assignments hang on
+                own_tests = {sb2 for blk, cv in defsL for sb2, t2 in h.control_deps(blk, depth=2)}
+                for variant in ("Deny", "Intercept"):
+                    for v, e in pend_edges:
+                        if v != variant or e[0] not in own_tests:
+                            continue
+                        got = {cv for blk, cv in defsL if blk in h.reach([e[1]], avoid_blocks=[sb] + rm2)}
+                        if got:
+                            kinds_seen.add(variant)
+                        if v_over in got:
+                            reach_over.append(variant)
+            guarded_by_kind = guarded and {"Deny", "Intercept"} <= kinds_seen and not reach_over
+            r2.check(guarded_by_kind, "overwrite-only-when-nothing-stands@%s" % where_, "the overwrite is unreachable from `pending is Deny` and from `pending is Intercept`",
+                     "the fresh verdict can replace a pending %s (the guard is not a test of the pending verdict's kind alone): in `Parse(intercepted) .. Parse(allowed) .. Sync` the later Allow wins, the whole batch - "
+                     "the intercepted statement included - is forwarded and executed" % (sorted(set(reach_over)) or "Deny / Intercept - no direct test of its kind found"), st["span"])
             r2.check(guarded, "overwrite@%s-loop" % where_, "assignment of a fresh verdict is conditional on the pending one",
                      "plugin_output is overwritten unconditionally with the verdict of the latest Parse: in a batch `Parse(denied) Parse(allowed) Bind Execute Sync` the denied statement is forwarded", st["span"])
     if n == 0:
